@@ -24,6 +24,14 @@ margin, where only the correspondence is checked), whole-vector assignments fed 
 other vectors' own arrays; (iii) a malformed-constructor stream; (iv) every transform class (several
 constructor arguments) x random interleavings of forward / backward / jacobian / params_sample /
 params_logprior / str with item, attribute, whole-vector assignments and reset.
+History streams (every public entry point of Vector has an op): accessors `vect[name]`, `vect.name` (known / unknown),
+to_dict / to_series / str / property getters (returned dict / series edited in place afterwards), values `float()`
+rejects on the three assignment paths, copy.deepcopy / pickle round-trips (CPython's copy protocol fails on the pinned
+class: then nothing may move; when it works the copy must be an independent deep copy), whole-vector assignment from a
+list / array (edited in place afterwards) / 2-d array / scalar / another vector's own array, from_dict of a dictionary
+edited in place afterwards, names given as list / numpy array / range / None / scalar; transforms built directly or by
+get_transform(name, **values), forward / backward / jacobian / backward_censored / params_sample with the returned and the
+input arrays edited in place afterwards, item / attribute reads, deepcopy / pickle of the transform.
 A case is non-trivial when the constructor accepted and at least one operation changed the state.
 """
 import itertools
@@ -72,7 +80,8 @@ def spec_token(sp):
 def spec_json(sp):
     f = lambda xs: None if xs is None else [repr(float(x)) for x in xs]  # noqa
     return {"names": sp["names"], "defaults": f(sp["defaults"]), "mins": f(sp["mins"]), "maxs": f(sp["maxs"]),
-            "check_bounds": sp["cb"], "check_hitbounds": sp["ch"], "accept_nan": sp["an"]}
+            "check_bounds": sp["cb"], "check_hitbounds": sp["ch"], "accept_nan": sp["an"],
+            "names_as": sp.get("names_as", "list")}
 
 
 def op_json(op):
@@ -90,7 +99,8 @@ def op_json(op):
 def spec_from_json(j):
     f = lambda xs: None if xs is None else [float(x) for x in xs]  # noqa
     return {"names": list(j["names"]), "defaults": f(j.get("defaults")), "mins": f(j.get("mins")), "maxs": f(j.get("maxs")),
-            "cb": bool(j["check_bounds"]), "ch": bool(j["check_hitbounds"]), "an": bool(j["accept_nan"])}
+            "cb": bool(j["check_bounds"]), "ch": bool(j["check_hitbounds"]), "an": bool(j["accept_nan"]),
+            "names_as": j.get("names_as", "list")}
 
 
 def op_from_json(o):
@@ -103,6 +113,8 @@ def op_from_json(o):
         return ("sv", int(o[1]), [float(x) for x in o[2]]) + tuple(o[3:4])
     if kind in ("rs", "cl", "dr"):
         return (kind, int(o[1]))
+    if kind in ("gk", "ga", "rd", "sb", "pc"):
+        return (kind, int(o[1]), o[2])
     if kind in ("ti", "ta"):
         return (kind, o[1], float(o[2]))
     if kind in ("pv", "cv"):
@@ -183,8 +195,8 @@ class WorldSnap:
         self.alias = alias_classes(np, self.snaps)
         self.views = [sn.view for sn in self.snaps]
 
-    def observe(self, out):
-        parts = [out]
+    def observe(self, out, r="-"):
+        parts = [out, "R:" + r]
         for sn in self.snaps:
             parts.append(view_str(sn.view))
             parts.append(sn.dstr)
@@ -194,12 +206,25 @@ class WorldSnap:
 
 
 def strip_kind(obs):
-    """the model's reply carries the error kind as 2nd token (histogram only): `ok -` / `rej kind`"""
+    """the model's reply: `out kind G<region flag> R:<read value> vectors... A[...]`; kind (histogram only) and the
+    region flag (checked against the harness's own conditioning, see body) are not part of the compared string"""
     toks = obs.split(" ")
-    return " ".join(toks[:1] + toks[2:]), toks[1]
+    return " ".join(toks[:1] + toks[3:]), toks[1], toks[2]
 
 
 # --------------------------------------------------------------------------------------
+def scribble_dict(d):
+    """edit a dictionary returned by to_dict() / given to from_dict() in place, every level"""
+    for e in d.get("data", []):
+        for key in ("value", "min", "max", "default"):
+            e[key] = 4321.5
+        e["name"] = "q"
+    d["data"].append({"name": "extra", "value": 0.0, "min": 0.0, "max": 0.0, "default": 0.0})
+    for key in ("hitbounds", "check_bounds", "check_hitbounds", "accept_nan"):
+        d[key] = not d[key]
+    d["nval"] = d["nval"] + 3
+
+
 def expected_clip(x, lo, hi):
     if x != x:
         return x
@@ -229,6 +254,7 @@ class VectorRun:
         self.used_ops = []     # ops with run-time resolved arguments (request tokens)
         self.changed = False
         self.vecs = []
+        self.regions = []      # per executed op: True when the hit oracle's conditioning held for a whole-vector assignment
         self.born = []         # frozen view at creation, per vector
 
     def find(self, sig, what, step):
@@ -248,6 +274,15 @@ class VectorRun:
                 given[key] = arr
                 args[key] = arr
         names = list(sp["names"])
+        how = sp.get("names_as", "list")
+        if how == "range":          # Vector(range(n)): names are the decimal strings
+            names = range(len(names))
+        elif how == "none":         # Vector(None): no name
+            names = None
+        elif how == "scalar":       # Vector("a"): np.atleast_1d
+            names = names[0]
+        elif how == "array":
+            names = np.array(names, dtype=str)
         try:
             v = self.Vector(names, check_bounds=sp["cb"], check_hitbounds=sp["ch"], accept_nan=sp["an"], **args)
         except ValueError:
@@ -256,7 +291,8 @@ class VectorRun:
         for arr in given.values():
             if isinstance(arr, np.ndarray) and arr.size:
                 arr[:] = 12345.678
-        names[:] = ["q"] * len(names)
+        if isinstance(names, (list, np.ndarray)):
+            names[:] = ["q"] * len(names)
         self.vecs = [v]
         self.born = [self.frozen(Snap(v).view)]
         return "ok"
@@ -278,6 +314,15 @@ class VectorRun:
             if kind == "sv":
                 src = op[2]
                 how = op[3] if len(op) > 3 else "list"
+                if how in ("2d", "scalar"):
+                    xs = [float(x) for x in src]
+                    tok = f"sv:{k}:{fl(xs)}"
+                    self.assigned = xs
+                    if how == "scalar":
+                        v.values = xs[0]                      # np.atleast_1d(scalar): length 1
+                    else:
+                        v.values = np.array(xs, dtype=np.float64).reshape((2, len(xs) // 2))   # flattened by the setter
+                    return "ok", tok
                 if how == "getter":
                     arr = getattr(vecs[src[0]], src[1])
                     xs = [float(x) for x in arr]
@@ -288,7 +333,15 @@ class VectorRun:
                     xs = [float(x) for x in src]
                     tok = f"sv:{k}:{fl(xs)}"
                     self.assigned = xs
-                    v.values = np.array(xs, dtype=np.float64) if how == "array" else list(xs)
+                    if how == "array":
+                        arr = np.array(xs, dtype=np.float64)
+                        try:
+                            v.values = arr
+                        finally:
+                            if arr.size:
+                                arr[:] = -777.25      # the setter copies: editing the caller's array afterwards is invisible
+                    else:
+                        v.values = list(xs)
                 return "ok", tok
             if kind == "rs":
                 tok = f"rs:{k}"
@@ -301,9 +354,61 @@ class VectorRun:
                 return "ok", tok
             if kind == "dr":
                 tok = f"dr:{k}"
-                c = self.Vector.from_dict(v.to_dict())
+                d = v.to_dict()
+                try:
+                    c = self.Vector.from_dict(d)
+                finally:
+                    scribble_dict(d)          # the dictionary holds scalars only: editing it afterwards is invisible
                 vecs.append(c)
                 return "ok", tok
+            if kind == "gk":
+                tok = f"gk:{k}:{op[2]}"
+                self.readval = h(v[op[2]])
+                return "ok", tok
+            if kind == "ga":
+                tok = f"ga:{k}:{op[2]}"
+                try:
+                    self.readval = h(getattr(v, op[2]))
+                except AttributeError:
+                    return "rej", tok
+                return "ok", tok
+            if kind == "rd":
+                tok = f"rd:{k}"
+                sub = op[2]
+                if sub == "td":
+                    scribble_dict(v.to_dict())
+                elif sub == "ts":
+                    se = v.to_series()
+                    arr = np.array(se.values)      # pandas 3 hands out read-only views; the copy is ours
+                    arr[:] = 3.5
+                    list(se.index)
+                elif sub == "st":
+                    str(v), repr(v)
+                else:
+                    (v.nval, v.names, v.values, v.mins, v.maxs, v.defaults, v.hitbounds, v.check_bounds,
+                     v.check_hitbounds, v.accept_nan)
+                return "ok", tok
+            if kind == "sb":
+                tok = f"sb:{k}"
+                names = [str(x) for x in v.names]
+                how = op[2] if names else "all"
+                if how == "attr":
+                    setattr(v, names[0], "x")
+                elif how == "key":
+                    v[names[-1]] = "1,5"
+                else:
+                    v.values = ["x"] * max(len(names), 1)
+                return "ok", tok
+            if kind == "pc":
+                import copy
+                import pickle
+                try:
+                    c = copy.deepcopy(v) if op[2] == "deepcopy" else pickle.loads(pickle.dumps(v))
+                    c.to_dict()
+                except Exception:
+                    return "rej", f"pc:{k}:0"       # CPython's copy protocol fails on the class: external, see model
+                vecs.append(c)
+                return "ok", f"pc:{k}:1"
         except ValueError:
             return "rej", tok
         raise RuntimeError("unknown op " + repr(op))
@@ -334,6 +439,7 @@ class VectorRun:
             nbefore = len(vecs)
             _, lo, hi, dfl = wb.snaps[k].floats
             self.assigned = None
+            self.readval = "-"
             try:
                 out, tok = self.apply(op)
             except Exception as e:  # anything but ValueError is outside the class's contract
@@ -342,11 +448,24 @@ class VectorRun:
                 self.used_ops.append("rs:0")
                 return
             self.used_ops.append(tok)
+            self.regions.append(kind == "sv" and out == "ok" and self.assigned is not None and len(self.assigned) == len(lo)
+                                and all(in_region(x, lo[i], hi[i]) for i, x in enumerate(self.assigned)))
             ws = WorldSnap(np, vecs)
             after = ws.views
-            self.obs.append(ws.observe(out))
+            self.obs.append(ws.observe(out, self.readval if out == "ok" else "-"))
             if after[:nbefore] != before or len(vecs) != nbefore:
                 self.changed = True
+            if kind in ("gk", "ga", "rd", "sb") or (kind == "pc" and out == "rej"):
+                # pure accessors, values float() rejects, a failing copy protocol: nothing may move
+                if after != before or ws.alias != wb.alias:
+                    self.find(f"{kind}/changes_state", "an accessor / a non-numeric assignment changed the observable state", step)
+                if kind in ("gk", "ga") and out == "ok":
+                    nms = before[k][0]
+                    if op[2] in nms and self.readval != h(wb.snaps[k].floats[0][nms.index(op[2])]):
+                        self.find("read/value_wrong", "vect[name] / vect.name is not the stored element", step)
+                if kind == "sb" and out == "ok":
+                    self.find("sb/accepts_non_number", "a non-numeric value was accepted", step)
+                continue
             # ---- oracle
             for j, sn in enumerate(ws.snaps):
                 if sn.inv is not None and (j >= nbefore or wb.snaps[j].inv is None):
@@ -370,7 +489,7 @@ class VectorRun:
                 elif kind == "rs":
                     self.find("rs/raises", "reset of a valid vector raised ValueError", step)
                 continue
-            if kind in ("cl", "dr"):
+            if kind in ("cl", "dr", "pc"):
                 new = after[-1]
                 self.born.append(self.frozen(new))
                 for idx, nm in enumerate(("names", "values", "mins", "maxs", "defaults", "hitbounds", "check_bounds",
@@ -548,6 +667,11 @@ def spec_valid(sp):
 def gen_spec(rng):
     n = rng.choice([0, 1, 1, 2, 2, 2, 3, 4])
     names = ALLNAMES[:n]
+    names_as = "list"
+    if rng.random() < 0.25:
+        names_as = rng.choice(["range", "array"] + (["none"] if n == 0 else []) + (["scalar"] if n == 1 else []))
+        if names_as == "range":
+            names = [str(i) for i in range(n)]
     cb, ch, an = rng.choice([(True, False, False), (True, True, False), (True, False, True), (True, True, True),
                              (False, False, False), (False, False, True)])
     mins = None if rng.random() < 0.2 else [rng.choice([-INF, -1.0, 0.0, 1e-5, -2.5, 3.0]) for _ in range(n)]
@@ -561,7 +685,8 @@ def gen_spec(rng):
             base = lo[i] if lo[i] != -INF else rng.choice([-4.0, 0.0, 2.0])
             maxs.append(INF if c == "inf" else base if c == "eq" else base + 1.0 if c == "one" else base + 3.5
                         if c == "wide" else (base - 5e-11 if lo[i] != -INF else base))
-    sp = {"names": names, "mins": mins, "maxs": maxs, "defaults": None, "cb": cb, "ch": ch, "an": an}
+    sp = {"names": names, "mins": mins, "maxs": maxs, "defaults": None, "cb": cb, "ch": ch, "an": an,
+          "names_as": names_as}
     elo, ehi = effective_bounds(sp)
     if rng.random() < 0.75:
         dcls = ["inside", "inside", "on_lo", "on_hi", "margin_lo", "margin_hi"] + (["nan"] if an else [])
@@ -601,6 +726,7 @@ def gen_bad_spec(rng):
         sp["defaults"][i] = sp["maxs"][i] + rng.choice([1e-6, 2.0]) if rng.random() < 0.5 else sp["mins"][i] - 1e-6
     elif kind == "dup" and n >= 2:
         sp["names"] = [sp["names"][0]] + sp["names"][:-1]
+        sp["names_as"] = "list"
     elif kind == "flags":
         sp["cb"], sp["ch"] = False, True
     return sp
@@ -611,6 +737,23 @@ def gen_op(rng, sp, nvecs, classes=VALUE_CLASSES):
     n = len(sp["names"])
     lo, hi = effective_bounds(sp)
     k = rng.randrange(nvecs) if rng.random() < 0.6 else nvecs - 1
+    q = rng.random()
+    if q < 0.16:
+        # accessors, non-numeric values, copy protocol: none of them may move anything
+        c = rng.choice(["gk", "gk", "ga", "ga", "rd", "rd", "sb", "pc"])
+        if c in ("gk", "ga"):
+            # "yy" is never assigned: a foreign attribute set earlier (`v.zz = x`) is an ordinary Python attribute and
+            # would be readable afterwards — not vector state
+            return (c, k, rng.choice(sp["names"] + ["yy"]) if n else "yy")
+        if c == "rd":
+            return ("rd", k, rng.choice(["td", "ts", "st", "pg"]))
+        if c == "sb":
+            return ("sb", k, rng.choice(["attr", "key", "all"]))
+        return ("pc", k, rng.choice(["deepcopy", "pickle"]))
+    if q < 0.20 and n in (1, 2, 4):
+        i = rng.randrange(n)
+        xs = [nz(value_for(rng, lo[i], hi[i], rng.choice(classes))) for i in range(n)]
+        return ("sv", k, xs, "scalar" if n == 1 else "2d")
     r = rng.random()
     if r < 0.30 and n:
         i = rng.randrange(n)
@@ -640,20 +783,23 @@ def exhaustive_shapes():
     s1 = {"names": ["a"], "defaults": [0.0], "mins": [-1.0], "maxs": [1.0], "cb": True, "ch": True, "an": False}
     a1 = [("sa", "cur", "a", 0.5), ("sa", "cur", "a", 2.0), ("sa", "cur", "a", NAN), ("sk", "cur", "zz", 0.5),
           ("sv", "cur", [-0.25]), ("sv", "cur", [-3.0]), ("sv", "cur", [0.5, 0.5]), ("rs", "cur"), ("cl", "cur"),
-          ("dr", "cur"), ("sa", 0, "a", 1.0), ("sv", 0, [1.0 + 1e-6])]
+          ("dr", "cur"), ("sa", 0, "a", 1.0), ("sv", 0, [1.0 + 1e-6]), ("gk", "cur", "a"), ("sb", "cur", "attr"),
+          ("pc", "cur", "deepcopy")]
     s2 = {"names": ["a", "b"], "defaults": [0.5, NAN], "mins": [0.0, -INF], "maxs": [1.0, INF], "cb": True, "ch": True,
           "an": True}
     a2 = [("sa", "cur", "a", 0.25), ("sk", "cur", "a", -1.0), ("sa", "cur", "b", NAN), ("sk", "cur", "b", INF),
           ("sv", "cur", [1.0, -7.0]), ("sv", "cur", [NAN, 2.0]), ("sv", "cur", [3.0, NAN]), ("sv", "cur", [0.5]),
-          ("rs", "cur"), ("cl", "cur"), ("dr", "cur"), ("sk", 0, "b", 1e300), ("sv", 0, (0, "mins"), "getter")]
+          ("rs", "cur"), ("cl", "cur"), ("dr", "cur"), ("sk", 0, "b", 1e300), ("sv", 0, (0, "mins"), "getter"),
+          ("rd", "cur", "td"), ("ga", "cur", "b"), ("sv", "cur", [0.75, 0.5], "2d")]
     s3 = {"names": [], "defaults": None, "mins": None, "maxs": None, "cb": True, "ch": False, "an": False}
     a3 = [("sa", "cur", "zz", 1.0), ("sk", "cur", "a", 1.0), ("sv", "cur", []), ("sv", "cur", [1.0]), ("rs", "cur"),
-          ("cl", "cur"), ("dr", "cur")]
+          ("cl", "cur"), ("dr", "cur"), ("rd", "cur", "ts"), ("pc", "cur", "pickle")]
     s4 = {"names": ["a", "b"], "defaults": None, "mins": [1.0, -2.0], "maxs": [3.0, -2.0], "cb": False, "ch": False,
           "an": False}
     a4 = [("sa", "cur", "a", 2.0), ("sk", "cur", "a", 0.0), ("sa", "cur", "b", -2.0), ("sa", "cur", "b", NAN),
           ("sv", "cur", [5.0, -2.0]), ("sv", "cur", [2.5, -2.0 - 1e-6]), ("sv", "cur", (0, "maxs"), "getter"),
-          ("rs", "cur"), ("cl", "cur"), ("dr", "cur"), ("sa", 0, "a", 1.0 - 5e-11)]
+          ("rs", "cur"), ("cl", "cur"), ("dr", "cur"), ("sa", 0, "a", 1.0 - 5e-11), ("gk", "cur", "zz"),
+          ("sb", "cur", "all"), ("rd", "cur", "st")]
     return [(s1, a1), (s2, a2), (s3, a3), (s4, a4)]
 
 
@@ -681,7 +827,8 @@ TCTOR = {
     "YeoJohnson": [{}], "Reciprocal": [{}, {"mininu": 0.5}], "Softmax": [{}], "Sinh": [{}], "LogSinh": [{}],
     "Manly": [{}],
 }
-READONLY = ["fw", "bw", "jc", "sm", "lp", "pr"]
+READONLY = ["fw", "bw", "jc", "sm", "lp", "pr", "bcz", "tg", "tpc"]
+MODEL_TOKEN = {"bcz": "fw", "tg": "pr", "tpc": "pr"}    # backward_censored = forward + backward; pure reads = print
 
 
 def spec_of_vector(v):
@@ -729,6 +876,8 @@ def gen_top(rng, pspec, cspec):
 
 
 def top_token(op):
+    if op[0] in MODEL_TOKEN:
+        return MODEL_TOKEN[op[0]]
     if op[0] in ("ti", "ta"):
         return f"{op[0]}:{op[1]}:{h(op[2])}"
     if op[0] in ("pv", "cv"):
@@ -742,16 +891,33 @@ def apply_top(np, t, clsname, op, xin):
     if kind in READONLY:
         try:
             with np.errstate(all="ignore"):
-                if kind == "fw":
-                    t.forward(xin)
-                elif kind == "bw":
-                    t.backward(xin)
-                elif kind == "jc":
-                    t.jacobian(xin)
+                if kind in ("fw", "bw", "jc"):
+                    xarg = np.array(xin, dtype=np.float64) if isinstance(xin, np.ndarray) else xin
+                    r = (t.forward if kind == "fw" else t.backward if kind == "bw" else t.jacobian)(xarg)
+                    for a in (r, xarg):              # edit the returned and the input array in place afterwards
+                        if isinstance(a, np.ndarray) and a.flags.writeable and a.size:
+                            a[...] = 1e9
                 elif kind == "sm":
-                    t.params_sample(5)
+                    smp = t.params_sample(5)
+                    if isinstance(smp, np.ndarray) and smp.flags.writeable and smp.size:
+                        smp[...] = 1e9               # the samples are the caller's: editing them must not reach the bounds
                 elif kind == "lp":
                     t.params_logprior()
+                elif kind == "bcz":
+                    r = t.backward_censored(xin, censor=0.05)
+                    if isinstance(r, np.ndarray) and r.flags.writeable:
+                        r[...] = -5.0             # edit the returned array in place
+                elif kind == "tg":
+                    for nm in list(t.params.names) + list(t.constants.names) + ["zz"]:
+                        try:
+                            t[str(nm)], getattr(t, str(nm))
+                        except (ValueError, AttributeError):
+                            pass
+                    t.params, t.constants, t.name
+                elif kind == "tpc":
+                    import copy
+                    import pickle
+                    copy.deepcopy(t) if xin is not None and np.ndim(xin) else pickle.loads(pickle.dumps(t))
                 else:
                     str(t), str(t.params), str(t.constants)
         except Exception:
@@ -775,11 +941,18 @@ def apply_top(np, t, clsname, op, xin):
 
 def run_transform_case(np, transform, clsname, kwargs, ops, rng_inputs):
     """-> (request, obs list, findings, changed)"""
-    t = getattr(transform, clsname)(**kwargs)
+    kwargs = dict(kwargs)
+    via = kwargs.pop("_get_transform", None)     # {name: value}: parameters / constants set by get_transform itself
+    if via is None:
+        t = getattr(transform, clsname)(**kwargs)
+    else:
+        t = transform.get_transform(clsname, **kwargs, **via)
     vecs = trans_vectors(t)
     specs = [spec_of_vector(v) for v in vecs]
     req = ["T", TKINDS.get(clsname, "plain"), spec_token(specs[0]), spec_token(specs[1]),
            spec_token(specs[2]) if len(specs) > 2 else "-"]
+    for nm, x in (via or {}).items():           # the model replays them as item assignments on the fresh transform
+        req.append(f"ti:{nm}:{h(x)}")
     ws = WorldSnap(np, vecs)
     obs = [ws.observe("ok")]
     findings = []
@@ -852,6 +1025,7 @@ def body(ctx):
     rng = ctx.rng
     np.random.seed(rng.getrandbits(32))
     reqs, impls, cases = [], [], []
+    extras = {}          # request index -> {"regions": [...]} (vector cases) / {"skip": n} (get_transform prefix)
     shrunk = set()
 
     eps_model = ctx.lean.ask(["eps"])[0]
@@ -870,6 +1044,7 @@ def body(ctx):
         reqs.append(req)
         impls.append(r.obs)
         cases.append(case)
+        extras[len(reqs) - 1] = {"regions": r.regions}
         rejected_ctor = r.obs == ["rej"]
         ctx.count(req, (not rejected_ctor) and r.changed,
                   "ctor_rejected" if rejected_ctor else f"{gen}/n={len(spec['names'])}/depth={len(ops)}",
@@ -896,6 +1071,7 @@ def body(ctx):
             return
         reqs.append(req)
         impls.append(obs)
+        extras[len(reqs) - 1] = {"skip": len(kwargs.get("_get_transform") or {})}
         cases.append({"gen": gen, "class": clsname, "kwargs": kwargs, "ops": [op_json(o) for o in ops]})
         tcases.append(len(reqs) - 1)
         ctx.count(req, changed, f"{gen}/{clsname}", sample=None)
@@ -926,12 +1102,14 @@ def body(ctx):
         spawn = [a for a in alpha if a[0] in ("cl", "dr", "rs")]
         rest = [a for a in alpha if a not in spawn]
         sub = spawn + rng.sample(rest, max(0, min(len(rest), quick_alpha - len(spawn))))
-        seqs = list(itertools.product(alpha, repeat=depth - 1)) + list(itertools.product(sub, repeat=depth))
+        # the "full" level is capped at 12 operations (seed-chosen among the non-spawning ones) to bound the cost
+        wide = spawn + rng.sample(rest, min(len(rest), 12 - len(spawn)))
+        seqs = list(itertools.product(wide, repeat=depth - 1)) + list(itertools.product(sub, repeat=depth))
         for seq in seqs:
             vector_case(spec, resolve(seq), f"exhaustive{si + 1}")
 
     # ---- (ii) random vectors x random sequences
-    for _ in range(ctx.scale(500, 4000)):
+    for _ in range(ctx.scale(500, 3500)):
         spec = gen_spec(rng)
         ops, n = [], 1
         for _ in range(rng.choice([3, 10, 40, 40])):
@@ -962,6 +1140,15 @@ def body(ctx):
                             {"class": clsname, "kwargs": kwargs})
                 continue
             ops = [gen_top(rng, pspec, cspec) for _ in range(rng.choice([4, 12, 25]))]
+            both = [(pspec, nm) for nm in pspec["names"]] + [(cspec, nm) for nm in cspec["names"]]
+            if both and rng.random() < 0.25:
+                # the same class built by get_transform(name, **constructor args, **parameter / constant values)
+                via = {}
+                for sp, nm in rng.sample(both, rng.randint(1, len(both))):
+                    i = sp["names"].index(nm)
+                    via[nm] = nz(value_for(rng, sp["mins"][i], sp["maxs"][i],
+                                           rng.choice(["inside", "on_lo", "on_hi", "below", "above"])))
+                kwargs = dict(kwargs, _get_transform=via)
             transform_case(clsname, kwargs, ops)
     tset = set(tcases)
 
@@ -978,13 +1165,19 @@ def body(ctx):
         elif rep == "bad-op":
             model = ["bad-op"]
         else:
-            model = []
+            model, gflags = [], []
             for o in mobs:
-                s, kind = strip_kind(o)
+                s, kind, g = strip_kind(o)
                 model.append(s)
-        if idx in tset:
-            # read-only calls: only the state is compared (whether the numerical call itself raised is C01/C02's business)
-            pass
+                gflags.append(g)
+            ex = extras.get(idx, {})
+            model = model[ex.get("skip", 0):]
+            # the theorems' conditioning (`inRegion`, evaluated by the model) must hold wherever the harness's own,
+            # stricter conditioning (inside / on the bound / >= 1e-6 outside) held and the hit oracle was applied
+            for j, reg in enumerate(ex.get("regions", [])):
+                if reg and j + 1 < len(gflags) and gflags[j + 1] == "G0":
+                    ctx.disagree("conditioning: the oracle's region is not inside the theorem's inRegion",
+                                 {"request": req[:1500], "step": j})
         nsteps += len(impl)
         if impl != model:
             # first differing step
